@@ -56,6 +56,21 @@ Proof.
         (conj incbin_no_panic (conj incstr_no_panic (group_no_panic 1 65535))))))))))))))))))).
 Qed.
 
+(* every position update of the resolve iterator (iter.rs next() / advance_address): the padding of a top-level label to
+   the bank's #labelalign and of #align (align_position), #addr (addr_position), #res / data / instruction (advance_by)
+   is a checked operation: never a panic, and an accepted position is a usize -- for ALL banks, positions and operands *)
+Theorem C19_no_overflow_positions :
+  (forall b pos la, align_position MB b pos la <> Panic) /\
+  (forall b pos la p, align_position MB b pos la = Ok p -> (pos <= p)%N /\ Z.of_N p <= U) /\
+  (forall b a, addr_position MB b a <> Panic) /\
+  (forall b a p, addr_position MB b a = Ok p -> Z.of_N p <= U) /\
+  (forall pos size, advance_by pos size <> Panic) /\
+  (forall pos size p, advance_by pos size = Ok p -> Z.of_N p = Z.of_N pos + Z.of_N size /\ Z.of_N p <= U).
+Proof.
+  exact (conj (align_position_no_panic MB) (conj (align_position_fits MB) (conj (addr_position_no_panic MB)
+        (conj (addr_position_fits MB) (conj advance_by_no_panic advance_by_fits))))).
+Qed.
+
 (* where the faithful model refutes "never wraps": positions the fix commits left unchecked *)
 Theorem C19_no_overflow_unwritten_position_refuted :   (* F61: label / #res in a bank whose outp + position overflows *)
   exists b pos, advanced pos 0 /\ bk_unit b <> 0%N /\ fits (bk_outp b) /\ place_item MB b pos 0 false = Panic.
@@ -197,6 +212,7 @@ Example C19_nonvacuous :
   d_mixed [0; 1; 3]%nat 25 = Ok (25, 75) /\ d_mixed [0; 1; 3]%nat 26 = Err /\ d_asm_nest 50 = Ok (50, 100) /\ d_asm_nest 51 = Err /\
   d_mixed (1 :: repeat 1 49 ++ [3])%nat 1 = Ok (50, 51) /\ d_mixed (1 :: repeat 1 49 ++ [3])%nat 2 = Err /\
   d_mixed_calls 8 = Ok 25 /\ d_mixed_calls 9 = Err /\
+  f_near_top 0 64 8 = Err /\ f_near_top 0 64 64 = Ok (0%N, Some 18446744073709551552) /\ f_near_top 2 8 9 = Ok (0%N, Some 18446744073709551615) /\
   f_bank_combo true true false 0 800000000 = Err /\ f_bank_combo true false false 1 99999999 = Ok (800000000%N, Some 100000000) /\ f_bank_combo true false false 1 100000000 = Err.
 Proof. vm_compute. repeat split. Qed.
 
